@@ -187,6 +187,36 @@ def make_case(rng):
         items.append('  <%s id="cm" inside="%s"/>' % (shape, " ".join("#" + mid for mid, _ in lst)))
         conts.append(dict(id="cm", mode="inside", shape=shape, refs=[(mid, "rect", [fmt(v) for v in bx.tuple()]) for mid, bx in lst],
                           trbl=[("abs", "0")] * 4, feats=["inside." + shape, "inside.list>=3"]))
+    if rng.random() < 0.12:
+        # 'inside' listed elements whose common area is degenerate - a rect crossed by a horizontal / vertical line, two rects
+        # sharing an edge or only a corner: the common area is a segment or a point, and a negative margin grows it into a box
+        x0, y0 = F(rng.randint(400, 480), 2), F(rng.randint(-60, 60), 2)
+        w, h = F(rng.randint(8, 40), 2), F(rng.randint(8, 40), 2)
+        a = Box(x0, y0, x0 + w, y0 + h)
+        kind = rng.choice(["hline", "vline", "edge", "corner"])
+        if kind == "hline":
+            yl = y0 + F(rng.randint(1, 7), 8) * h
+            b = Box(x0 - F(rng.randint(0, 6)), yl, x0 + w + F(rng.randint(0, 6)), yl)
+            btxt = '  <line id="dg2" xy1="%s %s" xy2="%s %s"/>' % (fmt(b.x1), fmt(b.y1), fmt(b.x2), fmt(b.y2))
+        elif kind == "vline":
+            xl = x0 + F(rng.randint(1, 7), 8) * w
+            b = Box(xl, y0 - F(rng.randint(0, 6)), xl, y0 + h + F(rng.randint(0, 6)))
+            btxt = '  <line id="dg2" xy1="%s %s" xy2="%s %s"/>' % (fmt(b.x1), fmt(b.y1), fmt(b.x2), fmt(b.y2))
+        elif kind == "edge":
+            b = Box(x0 + w, y0 - F(rng.randint(0, 4)), x0 + w + F(rng.randint(2, 20)), y0 + h + F(rng.randint(0, 4)))
+            btxt = '  <rect id="dg2" xy="%s %s" wh="%s %s"/>' % (fmt(b.x1), fmt(b.y1), fmt(b.w), fmt(b.h))
+        else:
+            b = Box(x0 + w, y0 + h, x0 + w + F(rng.randint(2, 20)), y0 + h + F(rng.randint(2, 20)))
+            btxt = '  <rect id="dg2" xy="%s %s" wh="%s %s"/>' % (fmt(b.x1), fmt(b.y1), fmt(b.w), fmt(b.h))
+        items.append('  <rect id="dg1" xy="%s %s" wh="%s %s"/>' % (fmt(a.x1), fmt(a.y1), fmt(a.w), fmt(a.h)))
+        items.append(btxt)
+        m = rng.choice([-1, -2, -5, F(-3, 2)])
+        shape = rng.choice(["rect", "rect", "circle", "ellipse"])
+        lst = ["#dg1", "#dg2"]
+        rng.shuffle(lst)
+        items.append('  <%s id="cdg" inside="%s" margin="%s"/>' % (shape, " ".join(lst), fmt(m)))
+        conts.append(dict(id="cdg", mode="inside", shape=shape, refs=[("dg1", "rect", [fmt(v) for v in a.tuple()]), ("dg2", "rect", [fmt(v) for v in b.tuple()])],
+                          trbl=[("abs", fmt(m))] * 4, feats=["inside." + shape, "inside.degenerate-common-area." + kind, "margin.negative"]))
     if rng.random() < 0.05:
         # 'inside' listed elements without any common area: whatever svgdx makes of it (an error, or an element without
         # geometry), the control attributes must not survive
